@@ -121,6 +121,9 @@ POOL = [
     ("nan", "NaN"), ("infinity", "Infinity"), ("snan", "sNaN"), ("exp-huge", "1e999"),
     ("long", LONG),
     ("date-dd-dd", "DD.DD"), ("date-hh-hh", "hh:hh"), ("date-directive", "%d.%d"),
+    # the same date parts in the spellings of other tools (lower case, Java style), next to the documented ones
+    ("date-dd-lower", "DD.MM.YYYY (dd)"), ("date-yyyy-lower", "YYYY yyyy"), ("date-hh-upper", "hh:mm HH"),
+    ("date-lower-only", "dd.mm.yyyy"), ("date-ss-upper", "ss SS"), ("date-mm-both", "MM mm MM"),
     ("re-star", "*a"), ("re-range", "[z-a]"), ("re-quantifier", "a{2,1}"), ("re-names", "(?P<n>a)(?P<n>b)"),
     ("re-backref", "\\1"), ("re-flag", "(?i"), ("re-repeat-huge", "a{99999999999999999999}"),
     ("codec-hex", "hex"), ("codec-rot13", "rot13"), ("codec-undefined", "undefined"),
